@@ -164,7 +164,7 @@ where P: AsRef<Path>, {
 ///
 /// Any text which occurs after these delimiters is considered a comment,
 /// and removed from the line. However, if these delimiters occur within
-/// braces, they are not treated as comment delimiters.
+/// braces or between double quotes, they are not treated as comment delimiters.
 /// For example, in the line
 ///
 /// <blockquote>
@@ -186,6 +186,7 @@ fn strip_comments(line: &str) -> String {
 
     let mut index = 0;
     let mut has_comment = false;
+    let mut in_quotes = false;
 
     let chrs = str_to_chars!(line);
     for (i, ch) in chrs.iter().enumerate() {
@@ -193,7 +194,8 @@ fn strip_comments(line: &str) -> String {
         else if *ch == '[' { square_depth += 1; }
         else if *ch == ')' { round_depth -= 1; }
         else if *ch == ']' { square_depth -= 1; }
-        else if round_depth == 0 && square_depth == 0 {
+        else if *ch == '"' { in_quotes = !in_quotes; }
+        else if round_depth == 0 && square_depth == 0 && !in_quotes {
             if *ch == '#' || *ch == '%' {
                 index = i;
                 has_comment = true;
